@@ -9,6 +9,26 @@ pub open spec fn raw_view(raw: IMap<Seq<u8>, Seq<u8>>) -> CoinsView {
 pub open spec fn raw_wf(raw: IMap<Seq<u8>, Seq<u8>>) -> bool {
     &&& forall|id: CoinID| (#[trigger] raw[k_coin(id)]).len() > 0 ==> de_cdh(raw[k_coin(id)]) is Some
     &&& forall|a: Address| (#[trigger] raw[k_count(a)]).len() > 0 ==> de_u64(raw[k_count(a)]) is Some
+    &&& raw_closed(raw)
+}
+/// nothing foreign in the coin tree: every non-empty entry sits under a coin key or a count key
+pub open spec fn raw_closed(raw: IMap<Seq<u8>, Seq<u8>>) -> bool { forall|k: Seq<u8>| #[trigger] raw[k].len() > 0 ==> is_coin_key(k) || is_count_key(k) }
+pub open spec fn is_count_key(k: Seq<u8>) -> bool { exists|a: Address| k_count(a) == k }
+/// a well-formed coin tree without count entries holds coin entries only (what the TIP-906 activation rebuild relies on)
+pub proof fn lemma_only_coins(raw: IMap<Seq<u8>, Seq<u8>>)
+    requires raw_wf(raw), raw_view(raw).counts == IMap::<Address, nat>::empty()
+    ensures raw_only_coins(raw)
+{
+    assert forall|k: Seq<u8>| #[trigger] raw[k].len() > 0 implies is_coin_key(k) by {
+        if !is_coin_key(k) { assert(is_count_key(k)); let a = choose|a: Address| k_count(a) == k; assert(raw_view(raw).counts.contains_key(a)); }
+    }
+}
+/// writing under a coin key or a count key keeps the tree closed
+pub proof fn lemma_closed_insert(raw: IMap<Seq<u8>, Seq<u8>>, k: Seq<u8>, v: Seq<u8>)
+    requires raw_closed(raw), is_coin_key(k) || is_count_key(k)
+    ensures raw_closed(raw.insert(k, v))
+{
+    assert forall|q: Seq<u8>| #[trigger] raw.insert(k, v)[q].len() > 0 implies is_coin_key(q) || is_count_key(q) by { if q != k { assert(raw[q].len() > 0); } }
 }
 impl<C: ContentAddrStore> View for CoinMapping<C> { type V = CoinsView; open spec fn view(&self) -> CoinsView { raw_view(self.inner@) } }
 impl<C: ContentAddrStore> CoinMapping<C> { pub open spec fn wf(&self) -> bool { raw_wf(self.inner@) }
